@@ -125,6 +125,11 @@ func (f *fileDecorator) fragment(node ast.Node) {
 			// we know where the newlines are.
 			line := 1
 			tokenf := f.Fset.File(astf.Pos())
+			if tokenf == nil {
+				// The file has no valid position (e.g. the parser could not read the package
+				// clause), so there are no newlines to find.
+				return
+			}
 			max := tokenf.Base() + tokenf.Size()
 			for i := tokenf.Base(); i < max; i++ {
 				pos := f.Fset.Position(token.Pos(i))
